@@ -29,7 +29,8 @@ def check_seq(prop, tier, seed):
     vlib.build_all(geos_for(tier))
     jobs = seq_jobs(tier, seed)
     gen_and_validate(res, jobs, [prop])
-    sjobs, nseq, gstates = script_jobs(tier, seed)
+    themes = [t for t in GEN_THEMES if t not in THEME_ONLY or prop in THEME_ONLY[t] or tier == "thorough"]
+    sjobs, nseq, gstates = script_jobs(tier, seed, themes=themes)
     try:
         gen_and_validate(res, sjobs, [prop], par=12)
     finally:
@@ -517,10 +518,15 @@ GEN_THEMES = {
     "Full": [({"tf": 1, "hf": 0, "plus": 0}, "free", "simple", 1), ({"tf": 2, "hf": 0, "plus": 0}, "free", "movable", 1)],
     "Demote": [({"tf": 2, "hf": 0, "plus": 0}, "free", "uneven", 1), ({"tf": 2, "hf": 0, "plus": 0}, "free", "simple", 2),
                ({"tf": 3, "hf": 0, "plus": 0}, "free", "uneven", 2)],
+    "Remote": [({"tf": 3, "hf": 0, "plus": 0}, "free", "zeroed", 1), ({"tf": 2, "hf": 0, "plus": 0}, "free", "movable", 1),
+               ({"tf": 3, "hf": 0, "plus": 0}, "free", "simple", 2)],
     "Offline": [({"tf": 3, "hf": 0, "plus": 0}, "free", "simple", 1), ({"tf": 2, "hf": 1, "plus": 0}, "free", "zeroed", 1),
                 ({"tf": 2, "hf": 0, "plus": 0}, "alloc", "simple", 1)],
 }
 _gen_cache = {}
+# themes added late are wired to the property whose seeded change asked for them (time: every theme added to all
+# sequential checks costs ~10 s per check); thorough tier runs them for every sequential property
+THEME_ONLY = {"Remote": ("C09",)}
 
 
 def gen_sequences(theme, depth):
@@ -546,7 +552,7 @@ def script_jobs(tier, seed, themes=None):
     geos = ["th4", "th1"] if tier == "quick" else ["th4", "th1", "th2"]
     jobs, nseq, states = [], 0, 0
     os.makedirs(vlib.WORK, exist_ok=True)
-    for theme in (themes or GEN_THEMES):
+    for theme in (themes or [t for t in GEN_THEMES if t not in THEME_ONLY]):
         # the Cursor theme has 6 letters and needs 5 steps (reserve, move the cursor, refill, allocate)
         # the Cursor / Full themes have 6-7 letters and need 5 steps (reserve, move, refill, allocate ...)
         d = depth
@@ -559,6 +565,8 @@ def script_jobs(tier, seed, themes=None):
         nseq += len(seqs)
         cfgs = GEN_THEMES[theme]
         per = 1 if tier == "quick" else min(2, len(cfgs))
+        if theme in THEME_ONLY:
+            per = len(cfgs)   # a theme run for one property only: every sequence on every configuration
         chunk = 450
         for gi, g in enumerate(geos):
             lines = []
